@@ -6,6 +6,7 @@ Local Open Scope Z_scope.
 
 Arguments items {B}. Arguments wasFull {B}. Arguments bound {B}. Arguments mkB {B}.
 Arguments tlog {B}. Arguments tbs {B}. Arguments mkT {B}.
+Arguments wa {B}. Arguments wb {B}. Arguments wext {B}. Arguments mkW {B}.
 Arguments gens {B}. Arguments count {B}. Arguments capacity {B}. Arguments mkH {B}.
 
 Ltac csplit := repeat match goal with |- _ /\ _ => split end.
@@ -65,10 +66,14 @@ Section TableProofs.
   Notation add_all := (add_all B b0 upd_bound h cap unlimited wf0 wfThr start next).
   Notation newLog := (newLog B logStart shift).
   Notation hadd := (hadd B b0 upd_bound h cap unlimited wf0 wfThr start next logStart calcCapacity shift maxLog).
+  Notation hadd_nomem := (hadd_nomem B b0 upd_bound h cap unlimited wf0 wfThr start next logStart calcCapacity shift maxLog).
   Notation hreserve := (hreserve B b0 upd_bound h cap unlimited wf0 wfThr start next logStart calcCapacity shift maxLog).
   Notation hcopy := (hcopy B b0 upd_bound h cap unlimited wf0 wfThr start next logStart calcCapacity maxLog).
   Notation hclear := (hclear B b0 wf0).
   Notation step := (step B b0 decode upd_bound h cap unlimited wf0 wfThr start next logStart calcCapacity shift maxLog).
+  Notation merge_loop := (merge_loop B b0 decode upd_bound h cap unlimited wf0 wfThr start next logStart calcCapacity shift maxLog).
+  Notation wstep := (wstep B b0 decode upd_bound h cap unlimited wf0 wfThr start next logStart calcCapacity shift maxLog).
+  Notation wrun := (wrun B b0 decode upd_bound h cap unlimited wf0 wfThr start next logStart calcCapacity shift maxLog).
   Notation run := (run B b0 decode upd_bound h cap unlimited wf0 wfThr start next logStart calcCapacity shift maxLog).
 
   (* the probe path of a hash code: path 0 = GetStartBucketIndex, path (p+1) = GetNextBucketIndex (path p) _ (p+1) *)
@@ -759,6 +764,22 @@ Section TableProofs.
       rewrite gall_cons. rewrite P. reflexivity.
   Qed.
 
+  Lemma hadd_nomem_spec s k v s' : Inv s -> ~ In k (K (hall s)) -> hadd_nomem s (k, v) = Some s' ->
+    Inv s' /\ Permutation (hall s') ((k, v) :: hall s).
+  Proof.
+    intros I Hnew. unfold HashModel.hadd_nomem. destruct (count s <? capacity s); [apply hadd_spec; auto|].
+    assert (NDl : NoDup (K ((k, v) :: hall s))) by (simpl; constructor; [exact Hnew|apply I]).
+    assert (Hc : count s + 1 = Z.of_nat (length ((k, v) :: hall s))) by (pose proof (inv_count _ I) as HC; change (length ((k, v) :: hall s)) with (S (length (hall s))); lia).
+    destruct (gens s) as [|t r] eqn:Eg; [discriminate|].
+    destruct (tadd t (k, v)) as [t'|] eqn:E; [|discriminate]. intros H; injection H as H; subst s'.
+    pose proof (inv_t _ I) as F. rewrite Eg in F. inversion F as [|? ? It Fr]; subst.
+    assert (Hnt : ~ In (fst (k, v)) (map fst (tall t))).
+    { intro Hin. apply Hnew. unfold hall, K. rewrite Eg, gall_cons, map_app. apply in_or_app; auto. }
+    destruct (tadd_inv t (k, v) t' It Hnt E) as [It' [L P]].
+    apply inv_relocated; auto; [discriminate|].
+    unfold hall. rewrite Eg, !gall_cons. rewrite P. reflexivity.
+  Qed.
+
   Lemma hreserve_spec s n bud s' : Inv s -> hreserve s n bud = Some s' -> Inv s' /\ Permutation (hall s') (hall s).
   Proof.
     intros I. unfold HashModel.hreserve. destruct (n <=? capacity s).
@@ -943,7 +964,7 @@ Section TableProofs.
     (x = RExn /\ s' = s) \/ (R s' (fst (spec_step m o)) /\ out_equiv x (snd (spec_step m o))).
   Proof.
     intros HR. pose proof HR as [I P]. pose proof (R_nodup _ _ HR) as NDm.
-    destruct o as [k v bud|k|k|k v|n bud|shrink| | |md r|]; simpl.
+    destruct o as [k v bud|k|k|k v|n bud|shrink| | |md r| |k v|k v]; simpl.
     - (* insert *)
       destruct (hfind s k) as [[[[gi idx] pos] v0]|] eqn:E.
       + intros H; inversion H; subst. right.
@@ -1021,6 +1042,26 @@ Section TableProofs.
     - (* copy *)
       destruct (hcopy s) as [s1|] eqn:E; intros H; inversion H; subst; [right|left; auto].
       destruct (hcopy_spec _ _ I E) as [I1 P1]. split; [split; auto; rewrite P1; exact P|simpl; auto].
+    - (* add at position *)
+      destruct (hfind s k) as [[[[gi idx] pos] v0]|] eqn:E.
+      + intros H; inversion H; subst. right.
+        pose proof (hfind_in _ _ _ _ _ _ I E) as Hin. apply (Permutation_in _ P) in Hin.
+        unfold sp_mem. rewrite (sp_find_in _ _ _ NDm Hin). simpl. split; auto.
+      + pose proof (hfind_none _ _ I E) as Hno.
+        assert (Hnm : ~ In k (map fst m)). { intro Hin. apply Hno. apply (Permutation_in _ (Permutation_map fst (Permutation_sym P))). exact Hin. }
+        destruct (hadd s (k, v) None) as [s1|] eqn:Ea; intros H; inversion H; subst; [right|left; auto].
+        destruct (hadd_spec _ _ _ _ _ I Hno Ea) as [I1 P1].
+        unfold sp_mem. rewrite (sp_find_notin _ _ Hnm). simpl. split; auto. split; auto. rewrite P1. apply perm_skip. exact P.
+    - (* insert with refused bucket-array allocation *)
+      destruct (hfind s k) as [[[[gi idx] pos] v0]|] eqn:E.
+      + intros H; inversion H; subst. right.
+        pose proof (hfind_in _ _ _ _ _ _ I E) as Hin. apply (Permutation_in _ P) in Hin.
+        unfold sp_mem. rewrite (sp_find_in _ _ _ NDm Hin). simpl. split; auto.
+      + pose proof (hfind_none _ _ I E) as Hno.
+        assert (Hnm : ~ In k (map fst m)). { intro Hin. apply Hno. apply (Permutation_in _ (Permutation_map fst (Permutation_sym P))). exact Hin. }
+        destruct (hadd_nomem s (k, v)) as [s1|] eqn:Ea; intros H; inversion H; subst; [right|left; auto].
+        destruct (hadd_nomem_spec _ _ _ _ I Hno Ea) as [I1 P1].
+        unfold sp_mem. rewrite (sp_find_notin _ _ Hnm). simpl. split; auto. split; auto. rewrite P1. apply perm_skip. exact P.
   Qed.
 
   Lemma out_equiv_refl x : out_equiv x x.
@@ -1045,6 +1086,407 @@ Section TableProofs.
         * rewrite Hx. destruct (spec_run m1 os xs) as [m' ys] eqn:Es. simpl in *. split; auto.
         * subst x. exfalso. clear - Ho Esp. destruct o; simpl in Esp;
             repeat match goal with H : context [if ?e then _ else _] |- _ => destruct e end; inversion Esp; subst; simpl in Ho; discriminate.
+  Qed.
+
+  (* ================= two containers + ExtractedItem holder ================= *)
+  Lemma out_equiv_bool x b : out_equiv x (RBool b) -> x = RBool b.
+  Proof. destruct x; simpl; auto. Qed.
+
+  Definition WR (w : world B) (m : wspec) : Prop :=
+    match m with (ma, mb, e) => R (wa w) ma /\ R (wb w) mb /\ wext w = e end.
+
+  Lemma remove_key_refines a ma k v : R a ma -> In (k, v) ma -> R (fst (step a (ORemove k))) (sp_remove k ma).
+  Proof.
+    intros HR Hin. destruct (step a (ORemove k)) as [a' x] eqn:E.
+    pose proof (R_nodup _ _ HR) as ND.
+    destruct (step_refines _ _ _ _ _ HR E) as [[Ex _]|[HR' _]].
+    - exfalso. simpl in E. destruct (hfind a k) as [[[[gi idx] pos] v0]|]; inversion E; subst; discriminate.
+    - simpl in *. unfold sp_mem in HR'. rewrite (sp_find_in _ _ _ ND Hin) in HR'. exact HR'.
+  Qed.
+
+  Lemma merge_loop_spec : forall its a b ma mb a' b' ok,
+    R a ma -> R b mb -> NoDup (map fst its) -> (forall kv, In kv its -> In kv ma) ->
+    merge_loop its a b = (a', b', ok) ->
+    exists ma' mb' moved, R a' ma' /\ R b' mb' /\ Permutation (moved ++ ma') ma /\ Permutation mb' (moved ++ mb) /\
+                          (ok = true -> moved = moved_of its mb).
+  Proof.
+    induction its as [|[k v] r IH]; intros a b ma mb a' b' ok Ra Rb ND Hin H; simpl in H.
+    - inversion H; subst. exists ma, mb, []. simpl. auto.
+    - inversion ND as [|? ? Hk ND']; subst.
+      assert (Hin' : forall kv, In kv r -> In kv ma) by (intros; apply Hin; right; auto).
+      pose proof Rb as [Ib Pb]. pose proof (R_nodup _ _ Rb) as NDb.
+      destruct (hfind b k) as [[[[gi idx] pos] v0]|] eqn:E.
+      + pose proof (hfind_in _ _ _ _ _ _ Ib E) as Hb. apply (Permutation_in _ Pb) in Hb.
+        destruct (IH _ _ _ _ _ _ _ Ra Rb ND' Hin' H) as [ma' [mb' [mv [A1 [A2 [A3 [A4 A5]]]]]]].
+        exists ma', mb', mv. repeat (split; auto). intros Hok. simpl.
+        assert (Hm : sp_mem mb k = true) by (apply sp_mem_iff, in_keys; eauto). rewrite Hm. auto.
+      + pose proof (hfind_none _ _ Ib E) as Hno.
+        assert (Hnm : ~ In k (map fst mb)). { intro Hi. apply Hno. apply (Permutation_in _ (Permutation_map fst (Permutation_sym Pb))). exact Hi. }
+        assert (Hm : sp_mem mb k = false). { destruct (sp_mem mb k) eqn:Em; auto. apply sp_mem_iff in Em. contradiction. }
+        destruct (hadd b (k, v) None) as [b1|] eqn:Ea.
+        * destruct (hadd_spec _ _ _ _ _ Ib Hno Ea) as [I1 P1].
+          assert (Rb1 : R b1 ((k, v) :: mb)) by (split; auto; rewrite P1; apply perm_skip; exact Pb).
+          assert (Hkv : In (k, v) ma) by (apply Hin; left; auto).
+          pose proof (remove_key_refines a ma k v Ra Hkv) as Ra1.
+          pose proof (R_nodup _ _ Ra) as NDa.
+          assert (Hin1 : forall kv, In kv r -> In kv (sp_remove k ma)).
+          { intros [k' v'] Hi. unfold sp_remove. apply filter_In. split; [apply Hin'; auto|]. simpl.
+            destruct (Z.eqb_spec k' k); auto. subst. exfalso. apply Hk. apply in_keys. eauto. }
+          destruct (IH _ _ _ _ _ _ _ Ra1 Rb1 ND' Hin1 H) as [ma' [mb' [mv [A1 [A2 [A3 [A4 A5]]]]]]].
+          exists ma', mb', ((k, v) :: mv). split; auto. split; auto. split; [|split].
+          -- simpl. destruct (in_split _ _ Hkv) as [l1 [l2 El]].
+             assert (Pr : Permutation ((k, v) :: sp_remove k ma) ma).
+             { apply Permutation_sym. rewrite El at 1. apply Permutation_sym.
+               apply Permutation_trans with ((k, v) :: l1 ++ l2); [|apply Permutation_middle].
+               apply perm_skip. apply Permutation_sym. apply (sp_remove_perm _ _ k v NDa). rewrite El. apply Permutation_middle. }
+             rewrite <- Pr. apply perm_skip. exact A3.
+          -- rewrite A4. simpl. apply Permutation_sym, Permutation_middle.
+          -- intros Hok. simpl. rewrite Hm. f_equal. auto.
+        * inversion H; subst. exists ma, mb, []. simpl. repeat (split; auto). discriminate.
+  Qed.
+
+  Theorem wstep_refines w m o w' x : WR w m -> wstep w o = (w', x) ->
+    (x = RExn /\ (w' = w \/ exists m', WR w' m' /\ o = WMergeAB /\
+        Permutation (fst (fst m') ++ snd (fst m')) (fst (fst m) ++ snd (fst m)) /\ snd m' = snd m)) \/
+    (WR w' (fst (wspec_step m o)) /\ out_equiv x (snd (wspec_step m o))).
+  Proof.
+    destruct m as [[ma mb] e]. destruct w as [a b ex]. intros [Ra [Rb Ee]]. simpl in Ra, Rb, Ee. subst ex.
+    pose proof (R_nodup _ _ Ra) as NDa. pose proof Ra as [Ia Pa].
+    destruct o as [o|o|k| | | |]; simpl.
+    - destruct (step a o) as [a' y] eqn:E. intros H; inversion H; subst; clear H.
+      destruct (step_refines _ _ _ _ _ Ra E) as [[Ex Es]|[Ra' Ho]]; [left; subst; auto|right].
+      destruct (spec_step ma o) as [ma' z]. simpl in *. auto.
+    - destruct (step b o) as [b' y] eqn:E. intros H; inversion H; subst; clear H.
+      destruct (step_refines _ _ _ _ _ Rb E) as [[Ex Es]|[Rb' Ho]]; [left; subst; auto|right].
+      destruct (spec_step mb o) as [mb' z]. simpl in *. auto.
+    - destruct e as [[ke ve]|]; [intros H; inversion H; subst; right; simpl; auto|].
+      destruct (hfind a k) as [[[[gi idx] pos] v0]|] eqn:E; intros H; inversion H; subst; clear H; right.
+      + pose proof (hfind_in _ _ _ _ _ _ Ia E) as Hin. apply (Permutation_in _ Pa) in Hin.
+        rewrite (sp_find_in _ _ _ NDa Hin). simpl. split; auto. split; auto.
+        pose proof (remove_key_refines a ma k v0 Ra Hin) as Hr. simpl in Hr. rewrite E in Hr. exact Hr.
+      + pose proof (hfind_none _ _ Ia E) as Hno.
+        rewrite sp_find_notin; [simpl; auto|].
+        intro Hin. apply Hno. apply (Permutation_in _ (Permutation_map fst (Permutation_sym Pa))). exact Hin.
+    - destruct e as [[ke ve]|]; [|intros H; inversion H; subst; right; simpl; auto].
+      destruct (step a (OInsert ke ve None)) as [a' y] eqn:E.
+      pose proof (step_refines _ _ _ _ _ Ra E) as SR. simpl in E. intros H. rewrite E in H. clear E.
+      destruct SR as [[Ex Es]|[Ra' Ho]].
+      + subst. inversion H; subst. left. auto.
+      + simpl in Ra', Ho. destruct (sp_mem ma ke); simpl in Ra', Ho; apply out_equiv_bool in Ho; subst y; inversion H; subst; right; simpl; auto.
+    - intros H; inversion H; subst. right. simpl. auto.
+    - intros H; inversion H; subst. right. simpl. split; auto. split; auto. split; [apply hinit_inv|reflexivity].
+    - set (its := if count a =? 0 then [] else traverse B a).
+      destruct (merge_loop its a b) as [[a' b'] ok] eqn:E. intros H; inversion H; subst; clear H.
+      assert (Pits : Permutation its ma).
+      { unfold its. destruct (Z.eqb_spec (count a) 0) as [E0|E0].
+        - rewrite (hall_count0 _ Ia E0) in Pa. exact Pa.
+        - rewrite traverse_perm. exact Pa. }
+      assert (NDi : NoDup (map fst its)) by (eapply NoDup_keys_perm; [apply Permutation_sym; exact Pits|exact NDa]).
+      assert (Hin : forall kv, In kv its -> In kv ma) by (intros kv; apply Permutation_in; exact Pits).
+      destruct (merge_loop_spec _ _ _ _ _ _ _ _ Ra Rb NDi Hin E) as [ma' [mb' [mv [A1 [A2 [A3 [A4 A5]]]]]]].
+      destruct ok.
+      + right. simpl. specialize (A5 eq_refl). rewrite (moved_of_filter _ _ NDi) in A5.
+        assert (Pmv : Permutation mv (filter (fun kv => negb (sp_mem mb (fst kv))) ma)) by (subst mv; apply Permutation_filter; exact Pits).
+        split; auto. split; [|split; auto].
+        * destruct A1 as [Ia' Pa']. split; auto. rewrite Pa'.
+          apply (Permutation_app_inv_l (filter (fun kv => negb (sp_mem mb (fst kv))) ma)).
+          rewrite <- Pmv. rewrite A3.
+          rewrite (filter_partition_perm (fun kv => negb (sp_mem mb (fst kv))) ma) at 1.
+          apply Permutation_app; [apply Permutation_sym; exact Pmv|].
+          match goal with |- Permutation ?x ?y => assert (Ef : x = y) end.
+          { apply filter_ext. intros kv. apply negb_involutive. }
+          rewrite Ef. reflexivity.
+        * destruct A2 as [Ib' Pb']. split; auto. rewrite Pb', A4. apply Permutation_app_tail. exact Pmv.
+      + left. split; auto. right. exists (ma', mb', e). simpl. split; auto. split; auto. split; auto.
+        rewrite A4. rewrite <- A3. rewrite <- !app_assoc. apply Permutation_sym.
+        rewrite !app_assoc. apply Permutation_app_tail. apply Permutation_app_comm.
+  Qed.
+
+  Theorem wrun_refines : forall os w m, WR w m -> no_merge_exn os (snd (wrun w os)) ->
+    WR (fst (wrun w os)) (fst (wspec_run m os (snd (wrun w os)))) /\
+    Forall2 out_equiv (snd (wrun w os)) (snd (wspec_run m os (snd (wrun w os)))).
+  Proof.
+    induction os as [|o os IH]; intros w m HR; simpl.
+    - split; auto.
+    - destruct (wstep w o) as [w1 x] eqn:E.
+      destruct (wrun w1 os) as [w2 xs] eqn:Er. simpl. intros [Hm Hn].
+      destruct (wstep_refines _ _ _ _ _ HR E) as [[Ex Hw]|[HR1 Ho]].
+      + subst x. simpl. destruct Hw as [Hw|[m' [_ [Eo _]]]]; [|subst o; exfalso; apply Hm; reflexivity].
+        subst w1. specialize (IH w m HR). rewrite Er in IH. simpl in IH. specialize (IH Hn).
+        destruct (wspec_run m os xs) as [m' ys]. simpl in *. destruct IH. split; auto. constructor; auto. reflexivity.
+      + pose proof (wspec_step_not_exn m o) as Hne.
+        destruct (wspec_step m o) as [m1 y] eqn:Esp. simpl in *.
+        assert (Hx : is_exn x = false).
+        { destruct x; auto. exfalso. apply Hne. simpl in Ho. congruence. }
+        rewrite Hx. specialize (IH w1 m1 HR1). rewrite Er in IH. simpl in IH. specialize (IH Hn).
+        destruct (wspec_run m1 os xs) as [m' ys]. simpl in *. destruct IH. split; auto.
+  Qed.
+
+  (* ================= "Hash table is full" is unreachable ================= *)
+  Hypothesis probe_cover : forall hc log b, 0 <= log <= maxLog -> 0 <= b < 2 ^ log ->
+    exists p : nat, Z.of_nat p < 2 ^ log /\ path hc (2 ^ log) p = b.
+  Hypothesis calc_le : forall log, 0 <= log <= maxLog -> calcCapacity (2 ^ log) <= cap * 2 ^ log.
+
+  Lemma add_loop_none t hc : forall n q, add_loop n t (Z.of_nat q) (path hc (bcount t) q) = None ->
+    forall q', (q <= q' <= q + n)%nat -> isFull (getb t (path hc (bcount t) q')) = true.
+  Proof.
+    induction n; intros q H q' Hq; rewrite add_loop_eq in H;
+      destruct (isFull (getb t (path hc (bcount t) q))) eqn:F; try discriminate.
+    - replace q' with q by lia. exact F.
+    - replace (Z.of_nat q + 1) with (Z.of_nat (S q)) in H by lia.
+      change (next (path hc (bcount t) q) (bcount t) (Z.of_nat (S q))) with (path hc (bcount t) (S q)) in H.
+      destruct (Nat.eq_dec q' q); [subst; exact F|]. apply (IHn _ H). lia.
+  Qed.
+
+  Lemma tadd_some t kv : TInv t -> (exists b, 0 <= b < bcount t /\ isFull (getb t b) = false) -> exists t', tadd t kv = Some t'.
+  Proof.
+    intros I [b [Hb Hf]]. unfold HashModel.tadd.
+    destruct (add_loop (Z.to_nat (bcount t - 1)) t 0 (start (h (fst kv)) (bcount t))) as [[idx probe]|] eqn:E; [eauto|].
+    exfalso. destruct (probe_cover (h (fst kv)) (tlog t) b (ti_log _ I) Hb) as [p [Hp Eb]].
+    pose proof (add_loop_none t (h (fst kv)) _ 0%nat E p) as F. fold (bcount t) in Eb, Hp. rewrite Eb in F.
+    rewrite F in Hf; [discriminate|]. lia.
+  Qed.
+
+  Lemma exists_nonfull (l : list bucket) : Z.of_nat (length (flat_map (@items B) l)) < cap * Z.of_nat (length l) ->
+    exists n, (n < length l)%nat /\ blen (nth n l emptyB) < cap.
+  Proof.
+    induction l as [|a r IH]; simpl; intros H; [lia|].
+    destruct (Z.ltb_spec (blen a) cap) as [Hl|Hl].
+    - exists 0%nat. split; [lia|exact Hl].
+    - destruct IH as [n [Hn Hb]].
+      + rewrite app_length in H. unfold HashModel.blen in Hl. lia.
+      + exists (S n). split; [lia|exact Hb].
+  Qed.
+
+  Lemma table_has_room t : TInv t -> Z.of_nat (length (tall t)) < cap * bcount t ->
+    exists b, 0 <= b < bcount t /\ isFull (getb t b) = false.
+  Proof.
+    intros I H. pose proof (bcount_pos t (proj1 (ti_log _ I))) as Hbc.
+    destruct unlimited eqn:U.
+    - exists 0. split; [lia|]. unfold HashModel.isFull. reflexivity.
+    - destruct (exists_nonfull (tbs t)) as [n [Hn Hb]].
+      + unfold tall in H. rewrite (ti_len _ I). rewrite Z2Nat.id by lia. exact H.
+      + exists (Z.of_nat n). rewrite (ti_len _ I) in Hn. split; [lia|].
+        unfold HashModel.isFull, HashModel.getb. rewrite Nat2Z.id. apply Z.leb_gt. exact Hb.
+  Qed.
+
+  (* mCapacity never promises more than the newest table can hold *)
+  Definition CapOK (s : hset) : Prop :=
+    match gens s with [] => True | t :: _ => capacity s <= cap * bcount t end.
+  Definition Reach (s : hset) : Prop := Inv s /\ CapOK s.
+
+  Lemma tall_le_hall s t r : gens s = t :: r -> (length (tall t) <= length (hall s))%nat.
+  Proof. intros E. unfold hall. rewrite E, gall_cons, app_length. lia. Qed.
+
+  (* pvAdd with mCount < mCapacity never throws *)
+  Theorem hadd_nogrow_never_full s kv bud : Reach s -> count s < capacity s -> exists s', hadd s kv bud = Some s'.
+  Proof.
+    intros [I C] Hc. unfold HashModel.hadd. destruct (Z.ltb_spec (count s) (capacity s)); [|lia].
+    destruct (gens s) as [|t r] eqn:Eg.
+    - exfalso. rewrite (inv_cap _ I Eg) in Hc. rewrite (inv_count _ I) in Hc. lia.
+    - pose proof (inv_t _ I) as F. rewrite Eg in F. inversion F as [|? ? It _]; subst.
+      unfold CapOK in C. rewrite Eg in C.
+      destruct (tadd_some t kv It) as [t' E].
+      + apply table_has_room; auto. pose proof (tall_le_hall s t r Eg). rewrite (inv_count _ I) in Hc. lia.
+      + rewrite E. eauto.
+  Qed.
+
+  (* pvAddGrow: the fresh table always accepts the item; only MOMO_CHECK(newCapacity > mCount) / length_error remain *)
+  Theorem hadd_grow_ok s kv bud : Inv s -> ~ (count s < capacity s) ->
+    count s < calcCapacity (2 ^ newLog (gens s)) -> newLog (gens s) <= maxLog -> exists s', hadd s kv bud = Some s'.
+  Proof.
+    intros I Hc H1 H2. unfold HashModel.hadd. destruct (Z.ltb_spec (count s) (capacity s)); [lia|].
+    destruct (Z.leb_spec (calcCapacity (2 ^ newLog (gens s))) (count s)); [lia|].
+    destruct (Z.ltb_spec maxLog (newLog (gens s))); [lia|]. simpl.
+    pose proof (newLog_nonneg _ (inv_t _ I)) as Hn0.
+    assert (It0 : TInv (newTable (newLog (gens s)))) by (apply newTable_inv; lia).
+    destruct (tadd_some _ kv It0) as [t' E]; [|rewrite E; eauto].
+    exists 0. split; [apply (conj (Z.le_refl 0)); apply bcount_pos; simpl; lia|].
+    unfold HashModel.getb, HashModel.newTable. simpl. rewrite nth_repeat.
+    unfold HashModel.isFull, HashModel.blen. simpl. destruct unlimited; auto. apply Z.leb_gt. lia.
+  Qed.
+
+  (* CapOK is preserved by every operation *)
+  Lemma relocate_head nw olds bud : Forall TInv (nw :: olds) -> NoDup (K (gall (nw :: olds))) ->
+    exists nw' rest, relocate (nw :: olds) bud = nw' :: rest /\ tlog nw' = tlog nw.
+  Proof.
+    Transparent HashModel.relocate.
+    intros F ND. destruct olds as [|g olds]; [simpl; eauto|].
+    unfold HashModel.relocate.
+    destruct (reloc_gens (g :: olds) nw bud) as [[[olds' nw'] bud'] ok] eqn:E.
+    inversion F as [|? ? I Fo]; subst.
+    assert (ND0 : NoDup (K (gall (g :: olds) ++ tall nw))).
+    { eapply NoDup_keys_perm; [|exact ND]. rewrite gall_cons. apply Permutation_app_comm. }
+    destruct (reloc_gens_spec _ _ _ _ _ _ _ Fo I ND0 E) as [F1 [I1 [L1 P1]]]. eauto.
+    Opaque HashModel.relocate.
+  Qed.
+
+  Lemma capok_relocated t r bud c cp : Forall TInv (t :: r) -> NoDup (K (gall (t :: r))) -> cp <= cap * bcount t ->
+    CapOK (mkH (relocate (t :: r) bud) c cp).
+  Proof.
+    intros F ND H. destruct (relocate_head t r bud F ND) as [nw' [rest [E L]]].
+    unfold CapOK. simpl. rewrite E. unfold HashModel.bcount in *. rewrite L. exact H.
+  Qed.
+
+  Lemma upd_gen_head gs gi (f : table -> table) : (forall t, tlog (f t) = tlog t) ->
+    match gs, upd_gen B gs gi f with
+    | t :: _, t' :: _ => tlog t' = tlog t
+    | [], [] => True
+    | _, _ => False
+    end.
+  Proof.
+    intros Hf. unfold HashModel.upd_gen. destruct gs as [|t r]; [destruct gi; simpl; auto|].
+    destruct gi; simpl; [apply Hf|destruct (nth_error r gi); reflexivity].
+  Qed.
+
+  Lemma gens_rem_if_head p gs c gs' c' : gens_rem_if B p gs c = (gs', c') ->
+    match gs, gs' with t :: _, t' :: _ => tlog t' = tlog t | [], [] => True | _, _ => False end.
+  Proof.
+    destruct gs as [|t r]; simpl; [intros H; inversion H; auto|].
+    destruct (buckets_rem_if B p (tbs t) c) as [bs' c1]. destruct (gens_rem_if B p r c1) as [r' c2].
+    intros H; inversion H; reflexivity.
+  Qed.
+
+  Lemma tadd_log t kv t' : tadd t kv = Some t' -> tlog t' = tlog t.
+  Proof.
+    unfold HashModel.tadd. destruct (add_loop _ t 0 _) as [[idx probe]|]; [|discriminate].
+    intros H; inversion H; reflexivity.
+  Qed.
+
+  Lemma add_all_log : forall its t t', add_all its t = Some t' -> tlog t' = tlog t.
+  Proof.
+    induction its as [|kv r IH]; simpl; intros t t' H; [inversion H; auto|].
+    destruct (tadd t kv) as [t1|] eqn:E; [|discriminate]. rewrite (IH _ _ H). eapply tadd_log; eauto.
+  Qed.
+
+  Lemma bcount_log (t t' : table) : tlog t' = tlog t -> bcount t' = bcount t.
+  Proof. intros E. unfold HashModel.bcount. rewrite E. reflexivity. Qed.
+
+  Lemma hadd_capok s k v bud s' : Inv s -> CapOK s -> ~ In k (K (hall s)) -> hadd s (k, v) bud = Some s' -> CapOK s'.
+  Proof.
+    intros I C Hnew. unfold HashModel.hadd.
+    assert (NDl : NoDup (K ((k, v) :: hall s))) by (simpl; constructor; [exact Hnew|apply I]).
+    destruct (count s <? capacity s).
+    - destruct (gens s) as [|t r] eqn:Eg; [discriminate|].
+      destruct (tadd t (k, v)) as [t'|] eqn:E; [|discriminate]. intros H; injection H as H; subst s'.
+      pose proof (inv_t _ I) as F. rewrite Eg in F. inversion F as [|? ? It Fr]; subst.
+      assert (Hnt : ~ In (fst (k, v)) (map fst (tall t))).
+      { intro Hin. apply Hnew. unfold hall, K. rewrite Eg, gall_cons, map_app. apply in_or_app; auto. }
+      destruct (tadd_inv t (k, v) t' It Hnt E) as [It' [L P]].
+      apply capok_relocated; auto.
+      + eapply NoDup_keys_perm; [|exact NDl]. unfold hall. rewrite Eg, !gall_cons. rewrite P. reflexivity.
+      + unfold CapOK in C. rewrite Eg in C. rewrite (bcount_log _ _ L). exact C.
+    - destruct ((calcCapacity (2 ^ newLog (gens s)) <=? count s) || (maxLog <? newLog (gens s))) eqn:Ck; [discriminate|].
+      apply orb_false_iff in Ck. destruct Ck as [_ Ck]. apply Z.ltb_ge in Ck.
+      pose proof (newLog_nonneg _ (inv_t _ I)) as Hn0.
+      destruct (tadd (newTable (newLog (gens s))) (k, v)) as [t'|] eqn:E; [|discriminate].
+      intros H; injection H as H; subst s'.
+      assert (It0 : TInv (newTable (newLog (gens s)))) by (apply newTable_inv; lia).
+      assert (Hnt : ~ In (fst (k, v)) (map fst (tall (newTable (newLog (gens s)))))) by (rewrite tall_newTable; simpl; tauto).
+      destruct (tadd_inv _ (k, v) t' It0 Hnt E) as [It' [L P]]. rewrite tall_newTable in P.
+      apply capok_relocated.
+      + constructor; [exact It'|apply I].
+      + eapply NoDup_keys_perm; [|exact NDl]. rewrite gall_cons. rewrite P. reflexivity.
+      + unfold HashModel.bcount. rewrite L. simpl. apply calc_le. lia.
+  Qed.
+
+  Theorem capok_step s o : Inv s -> CapOK s -> CapOK (fst (step s o)).
+  Proof.
+    intros I C. destruct o as [k v bud|k|k|k v|n bud|shrink| | |md r| |k v|k v]; simpl; auto.
+    - destruct (hfind s k) as [[[[gi idx] pos] v0]|] eqn:E; auto.
+      destruct (hadd s (k, v) bud) as [s1|] eqn:Ea; auto. simpl. eapply hadd_capok; eauto. eapply hfind_none; eauto.
+    - destruct (hfind s k) as [[[[gi idx] pos] v0]|] eqn:E; auto. simpl.
+      pose proof (upd_gen_head (gens s) gi (fun t => tremove t idx pos) (fun t => eq_refl)) as Hh.
+      unfold CapOK in *. simpl. destruct (gens s) as [|t r]; destruct (upd_gen B _ gi _) as [|t' r']; auto; try contradiction.
+      rewrite (bcount_log _ _ Hh). exact C.
+    - destruct (hfind s k) as [[[[gi idx] pos] v0]|] eqn:E; auto. simpl.
+      pose proof (upd_gen_head (gens s) gi (fun t => tsetval t idx pos v) (fun t => eq_refl)) as Hh.
+      unfold CapOK in *. simpl. destruct (gens s) as [|t r]; destruct (upd_gen B _ gi _) as [|t' r']; auto; try contradiction.
+      rewrite (bcount_log _ _ Hh). exact C.
+    - destruct (hreserve s n bud) as [s1|] eqn:E; auto. simpl. revert E. unfold HashModel.hreserve.
+      destruct (n <=? capacity s); [intros H; inversion H; subst; auto|].
+      destruct (reserve_log calcCapacity 64 (newLog (gens s)) n) as [nl|] eqn:El; [|discriminate].
+      destruct (maxLog <? nl) eqn:Ck; [discriminate|]. apply Z.ltb_ge in Ck.
+      intros H; injection H as H; subst s1.
+      assert (Hn0 : 0 <= nl).
+      { pose proof (newLog_nonneg _ (inv_t _ I)) as Hn0. revert El Hn0. generalize (newLog (gens s)). generalize 64%nat.
+        induction n0; simpl; intros z E Hz.
+        - destruct (n <=? calcCapacity (2 ^ z)); inversion E; subst; auto.
+        - destruct (n <=? calcCapacity (2 ^ z)); [inversion E; subst; auto|]. apply (IHn0 _ E). lia. }
+      apply capok_relocated.
+      + constructor; [apply newTable_inv; lia|apply I].
+      + rewrite gall_cons, tall_newTable. apply I.
+      + unfold HashModel.bcount. simpl. apply calc_le. lia.
+    - unfold HashModel.hclear. destruct (gens s) as [|t r] eqn:Eg; auto. destruct shrink; [exact Logic.I|].
+      unfold CapOK in *. simpl. rewrite Eg in C. exact C.
+    - destruct (hremove_if B s (fun kv : item => fst kv mod md =? r)) as [s1 c] eqn:E. simpl. revert E.
+      unfold HashModel.hremove_if. destruct (count s =? 0); [intros H; inversion H; subst; auto|].
+      destruct (gens_rem_if B _ (gens s) 0) as [gs c1] eqn:Eg. intros H; inversion H; subst.
+      pose proof (gens_rem_if_head _ _ _ _ _ Eg) as Hh.
+      unfold CapOK in *. simpl. destruct (gens s) as [|t r0]; destruct gs as [|t' r']; simpl in *; auto; try contradiction.
+      rewrite (bcount_log _ _ Hh). exact C.
+    - destruct (hcopy s) as [s1|] eqn:E; auto. simpl. revert E. unfold HashModel.hcopy.
+      destruct (count s =? 0); [intros H; inversion H; exact Logic.I|].
+      destruct (copy_log calcCapacity 64 logStart (count s)) as [l|] eqn:El; [|discriminate].
+      destruct (maxLog <? l) eqn:Ck; [discriminate|]. apply Z.ltb_ge in Ck.
+      destruct (add_all (traverse B s) (newTable l)) as [t|] eqn:Ea; [|discriminate].
+      intros H; injection H as H; subst s1.
+      assert (Hl0 : 0 <= l).
+      { revert El logStart_nonneg. generalize logStart. generalize 64%nat.
+        induction n; simpl; intros z E Hz.
+        - destruct (count s <=? calcCapacity (2 ^ z)); inversion E; subst; auto.
+        - destruct (count s <=? calcCapacity (2 ^ z)); [inversion E; subst; auto|]. apply (IHn _ E). lia. }
+      unfold CapOK. simpl. unfold HashModel.bcount. rewrite (add_all_log _ _ _ Ea). simpl. apply calc_le. lia.
+    - destruct (hfind s k) as [[[[gi idx] pos] v0]|] eqn:E; auto.
+      destruct (hadd s (k, v) None) as [s1|] eqn:Ea; auto. simpl. eapply hadd_capok; eauto. eapply hfind_none; eauto.
+    - destruct (hfind s k) as [[[[gi idx] pos] v0]|] eqn:E; auto.
+      destruct (hadd_nomem s (k, v)) as [s1|] eqn:Ea; auto. simpl. revert Ea. unfold HashModel.hadd_nomem.
+      pose proof (hfind_none _ _ I E) as Hnew.
+      destruct (count s <? capacity s); [intros Ea; eapply hadd_capok; eauto|].
+      destruct (gens s) as [|t r] eqn:Eg; [discriminate|].
+      destruct (tadd t (k, v)) as [t'|] eqn:Et; [|discriminate]. intros H; injection H as H; subst s1.
+      pose proof (inv_t _ I) as F. rewrite Eg in F. inversion F as [|? ? It Fr]; subst.
+      assert (Hnt : ~ In (fst (k, v)) (map fst (tall t))).
+      { intro Hin. apply Hnew. unfold hall, K. rewrite Eg, gall_cons, map_app. apply in_or_app; auto. }
+      destruct (tadd_inv t (k, v) t' It Hnt Et) as [It' [L P]].
+      apply capok_relocated; auto.
+      + assert (NDl : NoDup (K ((k, v) :: hall s))) by (simpl; constructor; [exact Hnew|apply I]).
+        eapply NoDup_keys_perm; [|exact NDl]. unfold hall. rewrite Eg, !gall_cons. rewrite P. reflexivity.
+      + unfold CapOK in C. rewrite Eg in C. rewrite (bcount_log _ _ L). exact C.
+  Qed.
+
+  (* an insert of an absent key can only throw in pvAddGrow's MOMO_CHECK(newCapacity > mCount) / length_error:
+     "Hash table is full" is unreachable *)
+  Theorem insert_never_table_full s k v bud s' : Reach s ->
+    step s (OInsert k v bud) = (s', RExn) ->
+    ~ (count s < capacity s) /\ (calcCapacity (2 ^ newLog (gens s)) <= count s \/ maxLog < newLog (gens s)).
+  Proof.
+    intros [I C]. simpl. destruct (hfind s k) as [[[[gi idx] pos] v0]|] eqn:E; [intros H; inversion H|].
+    destruct (hadd s (k, v) bud) as [s1|] eqn:Ea; [intros H; inversion H|]. intros _.
+    destruct (Z.lt_ge_cases (count s) (capacity s)) as [Hc|Hc].
+    - destruct (hadd_nogrow_never_full s (k, v) bud (conj I C) Hc) as [s2 E2]. congruence.
+    - split; [lia|].
+      destruct (Z.le_gt_cases (calcCapacity (2 ^ newLog (gens s))) (count s)) as [H1|H1]; auto.
+      destruct (Z.lt_ge_cases maxLog (newLog (gens s))) as [H2|H2]; auto.
+      destruct (hadd_grow_ok s (k, v) bud I) as [s2 E2]; try lia. congruence.
+  Qed.
+
+  Theorem reach_init : Reach (hinit B).
+  Proof. split; [apply hinit_inv|exact I]. Qed.
+
+  Theorem reach_step s o : Reach s -> Reach (fst (step s o)).
+  Proof.
+    intros [I C]. split; [|apply capok_step; auto].
+    destruct (step s o) as [s' x] eqn:E. simpl.
+    assert (HR : R s (hall s)) by (split; auto).
+    destruct (step_refines _ _ _ _ _ HR E) as [[_ Es]|[[I' _] _]]; subst; auto.
+  Qed.
+
+  Theorem reach_run : forall os s, Reach s -> Reach (fst (run s os)).
+  Proof.
+    induction os as [|o os IH]; intros s H; simpl; auto.
+    pose proof (reach_step s o H) as H1. destruct (step s o) as [s1 x]. simpl in H1.
+    specialize (IH s1 H1). destruct (run s1 os) as [s2 xs]. exact IH.
   Qed.
 
 End TableProofs.
@@ -1139,4 +1581,62 @@ Section Packaged.
                 ok_cap0 ok_logStart0 ok_shift0 ok_thr0 ok_start0 ok_next0 ok_b1 ok_upd0 ok_bound0 os _ _ HR) as [[I P] F].
     auto.
   Qed.
+
+  Notation WR' := (WR B b0 decode h cap unlimited wf0 start next maxLog Binv).
+  Notation wstep' := (wstep B b0 decode upd_bound h cap unlimited wf0 wfThr start next logStart calcCapacity shift maxLog).
+  Notation wrun' := (wrun B b0 decode upd_bound h cap unlimited wf0 wfThr start next logStart calcCapacity shift maxLog).
+
+  (* two containers + ExtractedItem holder: Extract / Insert(ExtractedItem) / Swap / move assignment / MergeTo *)
+  Theorem world_step_refines : forall w m o w' x, WR' w m -> wstep' w o = (w', x) ->
+    (x = RExn /\ (w' = w \/ exists m', WR' w' m' /\ o = WMergeAB /\
+        Permutation (fst (fst m') ++ snd (fst m')) (fst (fst m) ++ snd (fst m)) /\ snd m' = snd m)) \/
+    (WR' w' (fst (wspec_step m o)) /\ out_equiv x (snd (wspec_step m o))).
+  Proof. destruct OK. intros. eapply wstep_refines; eauto. Qed.
+
+  Theorem world_refines_all_histories : forall os,
+    no_merge_exn os (snd (wrun' (winit B) os)) ->
+    WR' (fst (wrun' (winit B) os)) (fst (wspec_run ([], [], None) os (snd (wrun' (winit B) os)))) /\
+    Forall2 out_equiv (snd (wrun' (winit B) os)) (snd (wspec_run ([], [], None) os (snd (wrun' (winit B) os)))).
+  Proof.
+    destruct OK. intros os Hn.
+    assert (HR : WR' (winit B) ([], [], None)).
+    { simpl. split; [|split; auto]; (split; [apply hinit_inv|reflexivity]). }
+    eapply wrun_refines; eauto.
+  Qed.
 End Packaged.
+
+(* "Hash table is full" unreachable: additionally the probe sequence visits every bucket and mCapacity fits the table *)
+Section PackagedFull.
+  Variable B : Type.
+  Variable b0 : B.
+  Variable decode : Z -> B -> Z.
+  Variable upd_bound : B -> Z -> B.
+  Variable h : Z -> Z.
+  Variable cap : Z.
+  Variable unlimited : bool.
+  Variable wf0 : bool.
+  Variable wfThr : Z.
+  Variable start : Z -> Z -> Z.
+  Variable next : Z -> Z -> Z -> Z.
+  Variable logStart : Z.
+  Variable calcCapacity : Z -> Z.
+  Variable shift : Z -> Z.
+  Variable maxLog : Z.
+  Variable Binv : B -> Prop.
+  Hypothesis OK : ModelOK B b0 decode upd_bound cap unlimited wfThr start next logStart shift maxLog Binv.
+  Hypothesis cover : forall hc log b, 0 <= log <= maxLog -> 0 <= b < 2 ^ log ->
+    exists p : nat, Z.of_nat p < 2 ^ log /\ path start next hc (2 ^ log) p = b.
+  Hypothesis calc_le : forall log, 0 <= log <= maxLog -> calcCapacity (2 ^ log) <= cap * 2 ^ log.
+
+  Notation Reach' := (Reach B b0 decode h cap unlimited wf0 start next maxLog Binv).
+  Notation step' := (step B b0 decode upd_bound h cap unlimited wf0 wfThr start next logStart calcCapacity shift maxLog).
+  Notation run' := (run B b0 decode upd_bound h cap unlimited wf0 wfThr start next logStart calcCapacity shift maxLog).
+
+  Theorem reachable_all_histories : forall os, Reach' (fst (run' (hinit B) os)).
+  Proof. destruct OK. intros os. eapply reach_run; eauto. apply reach_init. Qed.
+
+  Theorem never_table_full : forall s k v bud s', Reach' s -> step' s (OInsert k v bud) = (s', RExn) ->
+    ~ (count s < capacity s) /\
+    (calcCapacity (2 ^ newLog B logStart shift (gens s)) <= count s \/ maxLog < newLog B logStart shift (gens s)).
+  Proof. destruct OK. intros. eapply insert_never_table_full; eauto. Qed.
+End PackagedFull.
